@@ -283,6 +283,112 @@ def chainPersonalSkip : Bool := true
 
 def table : Table := { methods := methods, visit := visitDispatch, dispatchers := dispatchers, slots := slots, crossKind := crossKind }
 
+/-- (kind, attribute) ↦ the concrete node classes that occur there: annotations of `lang/ast.py` (abstract bases expanded)
+    ∪ what the real parser produces on the probe documents of C18_table.py (hypothesis `WellKinded` of Props/C18_reach.lean) -/
+def childKinds : List ((String × String) × List String) := [
+  (("Argument", "name"), ["Name"]),
+  (("Argument", "value"), ["BooleanValue", "EnumValue", "FloatValue", "IntValue", "ListValue", "NullValue", "ObjectValue", "StringValue", "Variable"]),
+  (("Directive", "arguments"), ["Argument"]),
+  (("Directive", "name"), ["Name"]),
+  (("DirectiveDefinition", "arguments"), ["InputValueDefinition"]),
+  (("DirectiveDefinition", "description"), ["StringValue"]),
+  (("DirectiveDefinition", "locations"), ["Name"]),
+  (("DirectiveDefinition", "name"), ["Name"]),
+  (("Document", "definitions"), ["DirectiveDefinition", "EnumTypeDefinition", "EnumTypeExtension", "FragmentDefinition", "InputObjectTypeDefinition", "InputObjectTypeExtension", "InterfaceTypeDefinition", "InterfaceTypeExtension", "ObjectTypeDefinition", "ObjectTypeExtension", "OperationDefinition", "ScalarTypeDefinition", "ScalarTypeExtension", "SchemaDefinition", "SchemaExtension", "UnionTypeDefinition", "UnionTypeExtension"]),
+  (("EnumTypeDefinition", "description"), ["StringValue"]),
+  (("EnumTypeDefinition", "directives"), ["Directive"]),
+  (("EnumTypeDefinition", "name"), ["Name"]),
+  (("EnumTypeDefinition", "values"), ["EnumValueDefinition"]),
+  (("EnumTypeExtension", "directives"), ["Directive"]),
+  (("EnumTypeExtension", "name"), ["Name"]),
+  (("EnumTypeExtension", "values"), ["EnumValueDefinition"]),
+  (("EnumValueDefinition", "description"), ["StringValue"]),
+  (("EnumValueDefinition", "directives"), ["Directive"]),
+  (("EnumValueDefinition", "name"), ["Name"]),
+  (("Field", "alias"), ["Name"]),
+  (("Field", "arguments"), ["Argument"]),
+  (("Field", "directives"), ["Directive"]),
+  (("Field", "name"), ["Name"]),
+  (("Field", "selection_set"), ["SelectionSet"]),
+  (("FieldDefinition", "arguments"), ["InputValueDefinition"]),
+  (("FieldDefinition", "description"), ["StringValue"]),
+  (("FieldDefinition", "directives"), ["Directive"]),
+  (("FieldDefinition", "name"), ["Name"]),
+  (("FieldDefinition", "type"), ["ListType", "NamedType", "NonNullType"]),
+  (("FragmentDefinition", "directives"), ["Directive"]),
+  (("FragmentDefinition", "name"), ["Name"]),
+  (("FragmentDefinition", "selection_set"), ["SelectionSet"]),
+  (("FragmentDefinition", "type_condition"), ["NamedType"]),
+  (("FragmentDefinition", "variable_definitions"), ["VariableDefinition"]),
+  (("FragmentSpread", "directives"), ["Directive"]),
+  (("FragmentSpread", "name"), ["Name"]),
+  (("InlineFragment", "directives"), ["Directive"]),
+  (("InlineFragment", "selection_set"), ["SelectionSet"]),
+  (("InlineFragment", "type_condition"), ["ListType", "NamedType", "NonNullType"]),
+  (("InputObjectTypeDefinition", "description"), ["StringValue"]),
+  (("InputObjectTypeDefinition", "directives"), ["Directive"]),
+  (("InputObjectTypeDefinition", "fields"), ["InputValueDefinition"]),
+  (("InputObjectTypeDefinition", "name"), ["Name"]),
+  (("InputObjectTypeExtension", "directives"), ["Directive"]),
+  (("InputObjectTypeExtension", "fields"), ["InputValueDefinition"]),
+  (("InputObjectTypeExtension", "name"), ["Name"]),
+  (("InputValueDefinition", "default_value"), ["BooleanValue", "EnumValue", "FloatValue", "IntValue", "ListValue", "NullValue", "ObjectValue", "StringValue"]),
+  (("InputValueDefinition", "description"), ["StringValue"]),
+  (("InputValueDefinition", "directives"), ["Directive"]),
+  (("InputValueDefinition", "name"), ["Name"]),
+  (("InputValueDefinition", "type"), ["ListType", "NamedType", "NonNullType"]),
+  (("InterfaceTypeDefinition", "description"), ["StringValue"]),
+  (("InterfaceTypeDefinition", "directives"), ["Directive"]),
+  (("InterfaceTypeDefinition", "fields"), ["FieldDefinition"]),
+  (("InterfaceTypeDefinition", "name"), ["Name"]),
+  (("InterfaceTypeExtension", "directives"), ["Directive"]),
+  (("InterfaceTypeExtension", "fields"), ["FieldDefinition"]),
+  (("InterfaceTypeExtension", "name"), ["Name"]),
+  (("ListType", "type"), ["ListType", "NamedType", "NonNullType"]),
+  (("ListValue", "values"), ["BooleanValue", "EnumValue", "FloatValue", "IntValue", "ListValue", "NullValue", "ObjectValue", "StringValue", "Variable"]),
+  (("NamedType", "name"), ["Name"]),
+  (("NonNullType", "type"), ["ListType", "NamedType", "NonNullType"]),
+  (("ObjectField", "name"), ["Name"]),
+  (("ObjectField", "value"), ["BooleanValue", "EnumValue", "FloatValue", "IntValue", "ListValue", "NullValue", "ObjectValue", "StringValue", "Variable"]),
+  (("ObjectTypeDefinition", "description"), ["StringValue"]),
+  (("ObjectTypeDefinition", "directives"), ["Directive"]),
+  (("ObjectTypeDefinition", "fields"), ["FieldDefinition"]),
+  (("ObjectTypeDefinition", "interfaces"), ["NamedType"]),
+  (("ObjectTypeDefinition", "name"), ["Name"]),
+  (("ObjectTypeExtension", "directives"), ["Directive"]),
+  (("ObjectTypeExtension", "fields"), ["FieldDefinition"]),
+  (("ObjectTypeExtension", "interfaces"), ["NamedType"]),
+  (("ObjectTypeExtension", "name"), ["Name"]),
+  (("ObjectValue", "fields"), ["ObjectField"]),
+  (("OperationDefinition", "directives"), ["Directive"]),
+  (("OperationDefinition", "name"), ["Name"]),
+  (("OperationDefinition", "selection_set"), ["SelectionSet"]),
+  (("OperationDefinition", "variable_definitions"), ["VariableDefinition"]),
+  (("OperationTypeDefinition", "type"), ["NamedType"]),
+  (("ScalarTypeDefinition", "description"), ["StringValue"]),
+  (("ScalarTypeDefinition", "directives"), ["Directive"]),
+  (("ScalarTypeDefinition", "name"), ["Name"]),
+  (("ScalarTypeExtension", "directives"), ["Directive"]),
+  (("ScalarTypeExtension", "name"), ["Name"]),
+  (("SchemaDefinition", "directives"), ["Directive"]),
+  (("SchemaDefinition", "operation_types"), ["OperationTypeDefinition"]),
+  (("SchemaExtension", "directives"), ["Directive"]),
+  (("SchemaExtension", "operation_types"), ["OperationTypeDefinition"]),
+  (("SelectionSet", "selections"), ["Field", "FragmentSpread", "InlineFragment"]),
+  (("UnionTypeDefinition", "description"), ["StringValue"]),
+  (("UnionTypeDefinition", "directives"), ["Directive"]),
+  (("UnionTypeDefinition", "name"), ["Name"]),
+  (("UnionTypeDefinition", "types"), ["NamedType"]),
+  (("UnionTypeExtension", "directives"), ["Directive"]),
+  (("UnionTypeExtension", "name"), ["Name"]),
+  (("UnionTypeExtension", "types"), ["NamedType"]),
+  (("Variable", "name"), ["Name"]),
+  (("VariableDefinition", "default_value"), ["BooleanValue", "EnumValue", "FloatValue", "IntValue", "ListValue", "NullValue", "ObjectValue", "StringValue"]),
+  (("VariableDefinition", "directives"), ["Directive"]),
+  (("VariableDefinition", "type"), ["ListType", "NamedType", "NonNullType"]),
+  (("VariableDefinition", "variable"), ["Variable"])
+]
+
 /-! witness documents, parsed by the real parser on this run (attribute `loc` dropped, ids = pre-order numbers) -/
 /-- `query Q($v: [Int!] = 1 @d, $u: Int!) { ... on T { a } } fragment F($w: Int) on T { a }` -/
 def witnessExec : Node :=
